@@ -120,12 +120,14 @@ pub struct Oracles {
     pub no_trace: bool,
     /// every open reader re-dumped after every action
     pub readers_frozen: bool,
+    /// with `fileck`: layout deviations no reader depends on are violations too (write-side conformance)
+    pub strict_layout: bool,
     /// the write transaction itself is dumped (cursor scans of every bucket) right before commit / drop
     pub dump_in_tx: bool,
 }
 
 impl Oracles {
-    pub const NONE: Oracles = Oracles { rets: false, dump_after: false, reopen_copy: false, probe_each_op: None, probe_after_commit: None, fileck: false, dbcheck: false, no_trace: false, readers_frozen: false, dump_in_tx: false };
+    pub const NONE: Oracles = Oracles { rets: false, dump_after: false, reopen_copy: false, probe_each_op: None, probe_after_commit: None, fileck: false, dbcheck: false, no_trace: false, readers_frozen: false, strict_layout: false, dump_in_tx: false };
 }
 
 #[derive(Clone, Debug)]
@@ -378,6 +380,11 @@ impl Runner {
                     self.last_shape = rep.shape;
                     for e in rep.errors.iter().take(3) {
                         out.push(Violation::new("fileck", format!("{}: independent file check: {}", what, e)));
+                    }
+                    if or.strict_layout {
+                        for e in rep.layout_notes.iter().take(3) {
+                            out.push(Violation::new("fileck_layout", format!("{}: layout differs from the pinned one: {}", what, e)));
+                        }
                     }
                     if rep.errors.is_empty() {
                         if let Some(diff) = rep.contents.diff(&self.model) {
